@@ -3,7 +3,7 @@ mount-time validation is not bypassed (MT5), cluster-range bounds agree (FT11)."
 from .framework import rule
 from .ev import all_guards, guarded, g_call, g_cmp, g_try_ok, try_inner
 from .mir import is_log_call, tstr, callee_of, path_matches, strip_refs, subterms, tmatch, find_sub, strip_generics, flat_place, rvalue_places
-from .fsmodel import VM, VMD, FATVOL, table_of_term, call_matches, ok_returns, err_returns, medium_effects, state_effects, FAT_MUTATORS, CACHE_MUTATORS
+from .fsmodel import is_cluster_const, VM, VMD, FATVOL, table_of_term, call_matches, ok_returns, err_returns, medium_effects, state_effects, FAT_MUTATORS, CACHE_MUTATORS
 from .dataflow import var_def_terms
 from .rules_guard import has_sub, last_field
 from .rules_fs import fat_arms
@@ -960,15 +960,17 @@ def ft13(F, R):
         for (b, i, g, op, a, z) in [(b, i, g, op, a, z) for (b, i, g) in all_guards(fn) for (op, a, z) in tested_comparisons(g)]:
             if op not in ("Lt", "Le", "Gt", "Ge", "Eq"):
                 continue
-            is_res = lambda t: t[0] == "c" and t[1] == 2 and t[2] and t[2].endswith("RESERVED_ENTRIES")
-            if not (is_res(a) or is_res(z)):
+            # RESERVED_ENTRIES by name, or the literal 2 compared with a cluster number (the `.0` of a ClusterId)
+            is_cluster_no = lambda t: (lambda y: y[0] == "place" and [e for e in y[2] if isinstance(e, str) and e != "*"][-1:] == ["0"])(strip_refs(t))
+            is_res = lambda t, other=None: t[0] == "c" and t[1] == 2 and ((t[2] and t[2].endswith("RESERVED_ENTRIES")) or (not t[2] and other is not None and is_cluster_no(other)))
+            if not (is_res(a, z) or is_res(z, a)):
                 continue
             k = "%s %s %s" % (op, tstr(a), tstr(z))
             if k in seen:
                 continue
             seen.add(k)
             n += 1
-            if is_res(a):    # constant on the left: mirror
+            if is_res(a, z):    # constant on the left: mirror
                 op = {"Lt": "Gt", "Le": "Ge", "Gt": "Lt", "Ge": "Le", "Eq": "Eq"}[op]
             short = fn.npath.split("::")[-1]
             if short == "alloc_cluster" and op == "Gt":
@@ -1444,7 +1446,7 @@ BLOCK_MUTATORS = {
       doc="chain surgery reads a link before it overwrites it: truncate_cluster_chain looks up the successor of the kept cluster before it terminates that cluster (END_OF_FILE), and alloc_cluster / make_dir never undo their work by freeing or blanking what they did not just create: the only update_fat(.., EMPTY) alloc_cluster may issue is for the cluster its own search returned, and no function stores a byte into the name of a DirEntry it has already written (0x00 there is the end-of-directory marker)")
 def tc1(F, R):
     fn = F.fn(FATVOL + "::truncate_cluster_chain")
-    eofs = [(b, t) for b, t in fn.calls() if call_matches(t, ("FatVolume::update_fat",)) and (lambda v: v[0] == "c" and v[2] and v[2].endswith("END_OF_FILE"))(fn.term_of_operand(t["args"][3], b)) and strip_refs(fn.term_of_operand(t["args"][2], b))[:2] == ("arg", 3)]
+    eofs = [(b, t) for b, t in fn.calls() if call_matches(t, ("FatVolume::update_fat",)) and is_cluster_const(None, fn.term_of_operand(t["args"][3], b), "END_OF_FILE") and strip_refs(fn.term_of_operand(t["args"][2], b))[:2] == ("arg", 3)]
     looks = [(b, t) for b, t in fn.calls() if call_matches(t, ("FatVolume::next_cluster",)) and strip_refs(fn.term_of_operand(t["args"][2], b))[:2] == ("arg", 3)]
     R.require(len(eofs) >= 1 and len(looks) >= 1, fn, "sites", "expected the successor lookup of the kept cluster and its END_OF_FILE mark in truncate_cluster_chain", fn.loc(0))
     bad = [b for b, t in looks if any(b in fn.reach_after(eb) for eb, et in eofs)]
@@ -1455,7 +1457,7 @@ def tc1(F, R):
     for b, t in al.calls():
         if call_matches(t, ("FatVolume::update_fat",)):
             val = al.term_of_operand(t["args"][3], b)
-            if val[0] == "c" and val[2] and val[2].endswith("ClusterId::EMPTY"):
+            if is_cluster_const(None, val, "EMPTY"):
                 tgt = strip_refs(al.term_of_operand(t["args"][2], b))
                 found = has_sub(tgt, lambda q: q[0] == "call" and q[1] and q[1].endswith("find_next_free_cluster")) or (tgt[0] == "var" and all(has_sub(d, lambda q: q[0] == "call" and q[1] and q[1].endswith("find_next_free_cluster")) for d in var_def_terms(al, tgt[1])) and var_def_terms(al, tgt[1]))
                 frees.append((b, bool(found), tstr(tgt)[:60]))
@@ -1486,7 +1488,7 @@ def hn1(F, R):
         for b, t in fn.calls():
             if call_matches(t, ("FatVolume::update_fat",)):
                 val = fn.term_of_operand(t["args"][3], b)
-                if val[0] == "c" and val[2] and val[2].endswith("ClusterId::EMPTY"):
+                if is_cluster_const(None, val, "EMPTY"):
                     freed.append((b, strip_refs(fn.term_of_operand(t["args"][2], b))))
         for b, i, s_ in fn.stmts():
             if s_["k"] != "Assign" or not s_["p"]["proj"]:
@@ -1877,7 +1879,7 @@ def rd2(F, R):
             cls = [cl] if cl[0] != "var" else [strip_refs(d) for d in var_def_terms(fn, cl[1])]
             for c in cls:
                 got.append(tstr(c))
-                if not (c[0] == "c" and c[2] and c[2].endswith("ClusterId::ROOT_DIR")):
+                if not (is_cluster_const(None, c, "ROOT_DIR")):
                     ok = False
         R.require(ok, fn, "sentinel", "open_root_dir opens %s; the root directory must be opened as the sentinel ClusterId::ROOT_DIR on both FAT types (a child's '..' entry, the FAT16 fixed root and the cluster mapping all key on it)" % sorted(set(got)), fn.loc(b))
 
